@@ -376,6 +376,10 @@ def put (r : Raw) (f : FImg) (date : Bytes) : R Nat × Raw :=
   | .ok (some _, _) => (.error .duplicate, r)
   | .ok (none, dir) =>
     let dataBlocks := f.chunks.length
+    -- what the 16-bit directory fields cannot record is refused before anything is written
+    if dataBlocks > 65535 then (.error .noRoom, r) else
+    if f.eof > blockSize * dataBlocks ∨ blockSize * dataBlocks - f.eof > 65535 then (.error .badFormat, r) else
+    if f.chunks.any (fun c => decide (c.2.length > blockSize)) then (.error .badFormat, r) else
     -- `FileType::from_usize`
     if f.fsType > 8 then (.error .badMode, r) else
     -- `data_blocks as u16`
@@ -387,6 +391,7 @@ def put (r : Raw) (f : FImg) (date : Bytes) : R Nat × Raw :=
       if ¬ i < dir.entries.length then (.error .noRoom, r) else
       if !(List.range dataBlocks).all (fun b => (f.chunks.lookup b).isSome) then (.error .badFormat, r) else
       -- u16 / usize arithmetic that panics in a debug build: `beg + n as u16`, `512*n - eof`, `num_files + 1`
+      -- (the first two are unreachable after the refusals above; kept because the Rust still computes them)
       if beg + dataBlocks % 65536 > 65535 then (.error .panic, r) else
       if blockSize * dataBlocks < f.eof then (.error .panic, r) else
       if dir.numFiles + 1 > 65535 then (.error .panic, r) else
